@@ -56,15 +56,21 @@ def _locals(fn: FuncInfo) -> Dict[str, List[ast.AST]]:
 
 
 def _domain(fn: FuncInfo, it: ast.AST) -> str:
-    loc = _locals(fn)
-    e = it
-    if isinstance(e, ast.Name) and e.id in loc and len(loc[e.id]) == 1:
-        e = loc[e.id][0]
+    """'all' (every user), 'others' (every user except k), 'bad:<why>' (a recognised selection that is neither), else 'unknown:<text>'."""
+    from ..astutil import all_but_one, expander, _full_range
+    ex = expander(fn)
+    e = ex(it)
     s = norm(e).replace(' ', '')
-    if s in ('range(self.K)', 'range(K)', 'np.arange(self.K)'):
-        return 'all'
-    if s in ('set(range(self.K))-{k}', 'set(range(self.K))-set([k])'):
-        return 'others'
+    N = _full_range(e)
+    if N is not None:
+        return 'all' if N in ('self.K', 'K', 'self._K') else 'bad:the range covers %s, not the K users' % N
+    sel = all_but_one(e, ex)
+    if sel is not None:
+        if sel[0] == 'ok':
+            if sel[1] in ('self.K', 'K', 'self._K') and sel[2] == 'k':
+                return 'others'
+            return 'bad:{0..%s-1} minus {%s}' % (sel[1], sel[2])
+        return 'bad:' + sel[1]
     return 'unknown:' + s
 
 
@@ -174,6 +180,9 @@ def _check_sums(ctx: Ctx) -> None:
         ctx.instance('C11.b', construct)
         problems = []
         dom = _domain(fn, dom_iter)
+        if dom.startswith('unknown:'):
+            ctx.error('C11.b: %s sums over `%s`, which is neither a recognised "all users" nor "all users except k" selection (cannot tell)'
+                      % (q, dom[8:][:80]))
         if dom != want:
             problems.append('sums over %s, the formula needs %s' % (dom, 'all users' if want == 'all' else 'all users except k'))
         for n in scan:
